@@ -220,6 +220,16 @@ def check_object(res, defs, known=(), replace=True):
                               'for %s was reused' % d['name'], rep,
                               size=len(defs))
                 continue
+            if replace and I.DBusInterface.knownInterfaces.get(
+                    d['name']) is not g:
+                res.violation('%s/registry-not-replaced/%s' % (PROP, tag),
+                              'replacement requested: the parsed definition '
+                              'of %s was returned but the local registry '
+                              'still holds %s' % (
+                                  d['name'], 'the old object' if
+                                  d['name'] in registered else 'nothing'),
+                              rep, size=len(defs))
+                continue
             want = expected(d)
             have = describe(g)
             if have != want:
@@ -308,13 +318,16 @@ def _task_multi(task):
         for combo in itertools.permutations(range(len(defs) if not quick
                                                   else 6), k):
             sel = [defs[c] for c in combo]
+            n += 1
+            if n % nparts != part:
+                continue
+            # all variants of one selection run in one process, one after the
+            # other: the same XML text is parsed again and again while what
+            # is known locally changes in between
             for known in itertools.chain.from_iterable(
                     itertools.combinations(range(k), r)
                     for r in range(k + 1)):
-                for replace in (True, False):
-                    n += 1
-                    if n % nparts != part:
-                        continue
+                for replace in (True, False, True, False):
                     check_object(res, sel, known, replace)
                     res.count('nontrivial')
     res.sample({'objects_with_interfaces': 'every ordered selection of 2 and '
